@@ -232,7 +232,7 @@ Proof.
   destruct (bcast_all (tshapes psB) []) as [B|] eqn:HB; [|discriminate].
   assert (Hr_eq : r = result t (psB ++ [pr; pc]) B) by (injection Hspec as <-; reflexivity). clear Hspec.
   (* the library side *)
-  unfold getitem_model. fold nd. replace (nd <? 2) with false by (symmetry; apply Nat.ltb_ge; lia).
+  unfold getitem_model, getitem_front. fold nd. replace (nd <? 2) with false by (symmetry; apply Nat.ltb_ge; lia).
   rewrite Hexp. fold batch row col. rewrite HbT.
   assert (Er : is_tensor row = false) by (unfold basic in Hbr; apply negb_true_iff in Hbr; exact Hbr).
   assert (Ec : is_tensor col = false) by (unfold basic in Hbc; apply negb_true_iff in Hbc; exact Hbc).
